@@ -28,6 +28,10 @@ SRC = ["SimpleSource", "IslandSource", "ComponentSource"]
 
 
 MUTANTS = [
+    ("nulls applied to every value of a database row",
+     "AegeanTools/catalogs.py",
+     "        data = list(map(nulls, list(r.as_list() for r in t)))",
+     "        data = [list(map(nulls, r.as_list())) for r in t]", "C18-R13"),
     ("tables cached by file name", "AegeanTools/catalogs.py",
      "def load_table(filename):", "@lru_cache(maxsize=16)\ndef load_table(filename):",
      "C18-R12"),
@@ -131,6 +135,78 @@ def bases_closure(prog, cq):
                 out.append(t)
                 work.append(t)
     return out
+
+
+def r13_no_value_substitution(ctx, prog, cats, rule="C18-R13"):
+    """-1 (the 'no error' marker, but also a legitimate flux) and NaN are
+    written as they are: a function that replaces particular values by a
+    constant (catalogs.nulls: -1 -> None) is never applied to the individual
+    field values of a source on the way to a file / a database row."""
+    ctx.rule(rule, "the values written are the catalogue's values: no "
+             "value-substituting function (one that returns a constant for "
+             "some inputs and its argument otherwise, e.g. nulls: -1 -> "
+             "None) is applied to individual field values in the writers -- "
+             "the -1 'no error' marker and fluxes equal to -1 would reach "
+             "sqlite as NULL, indistinguishable from NaN")
+    from .c08 import _resolve_local
+    subst = {}
+    for q, f in prog.functions.items():
+        if f.module != cats.name or f.cls or not f.params:
+            continue
+        rets = [r for r in ast.walk(f.node) if isinstance(r, ast.Return)]
+        consts = [r for r in rets if r.value is None or
+                  isinstance(r.value, ast.Constant)]
+        ident = [r for r in rets if isinstance(r.value, ast.Name) and
+                 r.value.id == f.params[0]]
+        if consts and ident and len(f.params) == 1:
+            subst[f.name] = f
+    n = 0
+
+    def rows_collection(fnode, e, depth=0):
+        """list of rows: [r.as_list() for r in t] (possibly wrapped)"""
+        e = _resolve_local(fnode, e) if isinstance(e, ast.Name) else e
+        if isinstance(e, ast.Call) and isinstance(e.func, ast.Name) and \
+                e.func.id in ("list", "tuple", "iter") and e.args and \
+                depth < 3:
+            return rows_collection(fnode, e.args[0], depth + 1)
+        if isinstance(e, (ast.GeneratorExp, ast.ListComp)):
+            el = e.elt
+            return isinstance(el, ast.Call) and \
+                isinstance(el.func, ast.Attribute) and \
+                el.func.attr == "as_list"
+        return False
+
+    for q, f in sorted(prog.functions.items()):
+        if f.module != cats.name:
+            continue
+        for c in ast.walk(f.node):
+            if not isinstance(c, ast.Call):
+                continue
+            target = None
+            if isinstance(c.func, ast.Name) and c.func.id == "map" and \
+                    len(c.args) == 2 and isinstance(c.args[0], ast.Name) \
+                    and c.args[0].id in subst:
+                target = ("map", c.args[0].id, c.args[1])
+            elif isinstance(c.func, ast.Name) and c.func.id in subst and \
+                    c.args and f.name != c.func.id:
+                target = ("call", c.func.id, c.args[0])
+            if target is None:
+                continue
+            n += 1
+            how, fn, arg = target
+            if how == "map":
+                ok = rows_collection(f.node, arg)
+            else:
+                ok = False
+            ctx.check(rule, f, "%s applied in %s" % (fn, norm(c, 70)), ok,
+                      "%s (which returns a constant for some values) is "
+                      "applied to individual field values: every field "
+                      "equal to that value -- the -1 'no error' marker, a "
+                      "flux of exactly -1 -- is written as NULL / None and "
+                      "cannot be told from NaN when read back" % fn, node=c)
+    ctx.ob(rule, prog.func("catalogs.writeDB"),
+           "value-substituting functions of catalogs.py: %s; %d application(s)"
+           % (sorted(subst), n), True, {}, prog.func("catalogs.writeDB").node)
 
 
 def run(ctx):
@@ -296,6 +372,7 @@ def run(ctx):
                   not _st, "%s: the table read earlier under this name is returned although the file has been rewritten" % "; ".join(d for _, d in _st[:3]),
                   node=_st[0][0] if _st else _f.node)
     ctx.floor("C18-R12", _n, 10, "functions examined for shared state")
+    r13_no_value_substitution(ctx, prog, cats)
     # ---------------------------------------------------------------- R3
     ctx.rule("C18-R3", "names ⊆ attributes assigned by the __init__ chain; "
              "as_list and the writer iterate `names`")
